@@ -9,6 +9,53 @@ use std::rc::Rc;
 pub fn base_sources() -> Vec<(&'static str, &'static str)> {
     vec![
         ("lines", "Hello.\nSecond line. # t1\nThird <>\nline glued. # t2 # t3\n-> END\n"),
+        // pauses while a forked thread is still running (two threads on the call stack between
+        // two lines) and while an expression has an operand waiting (function printing lines)
+        (
+            "mid-thread",
+            r#"VAR total = 0
+Start.
+<- side(2)
+Main after fork.
+* main pick
+    Main picked {total}.
+- Joined {total}.
+-> END
+=== side(n) ===
+Side one {n}.
+~ total = total + n
+Side two {total}.
+Side three.
+* side pick
+    Side picked {total}.
+    -> END
+=== function add(a, b) ===
+~ return a + b
+=== function say(t) ===
+said {t}
+"#,
+        ),
+        (
+            "mid-expression",
+            r#"VAR total = 0
+Start.
+~ total = 3 + bonus(2)
+Total is {total}.
+~ total = add(bonus(1), 10) * 2
+Now {total}.
+* [again] The total was {total}.
+- Done.
+-> END
+=== function bonus(k) ===
+Counting the bonus {k}
+Still counting
+~ return 4 + k
+=== function add(a, b) ===
+~ return a + b
+=== function say(t) ===
+said {t}
+"#,
+        ),
         (
             "vars",
             r#"VAR x = 0
